@@ -398,12 +398,19 @@ class FileInfo(os.PathLike):
         if other_info.times[1] is not None or not ignore_none_time:
             self.times[1] = other_info.times[1]
 
+    @staticmethod
+    def _time_to_json(time):
+        # strftime("%Y") does not pad years below 1000 on every platform
+        # (glibc writes "1" for datetime.min, which non-temporal filesets use
+        # as start time), but strptime("%Y") only reads four digits.
+        return f"{time.year:04d}" + time.strftime("-%m-%dT%H:%M:%S.%f")
+
     def to_json_dict(self):
         return {
             "path": self.path,
             "times": [
-                self.times[0].strftime("%Y-%m-%dT%H:%M:%S.%f"),
-                self.times[1].strftime("%Y-%m-%dT%H:%M:%S.%f")
+                self._time_to_json(self.times[0]),
+                self._time_to_json(self.times[1]),
             ],
             "attr": self.attr,
         }
